@@ -98,6 +98,7 @@ PREFIXES = ["", "@a{k0, t = {v}}\n"]
 def shards(tier):
     out = [("seq", s) for s in seq_shards(spaces.SIGMA_DOC, 5 if tier == "quick" else 6)]
     out += [("ext", s) for s in seq_shards(spaces.SIGMA_DOC_EXT, 3 if tier == "quick" else 5)]
+    out += [("mini", s) for s in seq_shards(spaces.SIGMA_DOC_MINI, 3 if tier == "quick" else 5)]
     out += spaces.deviation_shards(len(spaces.BASE_DOCS), 1 if tier == "quick" else 2)
     out += [("big", n, v) for n in (bigdocs.SIZES_QUICK if tier == "quick" else bigdocs.SIZES_THOROUGH) for v in (0, 1)]
     sizes = SIZES_QUICK if tier == "quick" else SIZES_THOROUGH
@@ -307,6 +308,9 @@ def _run_shard(shard, tier, acc):
             check_text("".join(toks), acc)
     elif kind == "ext":
         for toks in seq_iter(spaces.SIGMA_DOC_EXT, shard[1]):
+            check_text("".join(toks), acc)
+    elif kind == "mini":
+        for toks in seq_iter(spaces.SIGMA_DOC_MINI, shard[1]):
             check_text("".join(toks), acc)
     elif kind == "dev":
         for edits, toks in spaces.deviation_iter(shard, spaces.SIGMA_DOC):
